@@ -21,7 +21,7 @@ IMPORTS = ['Spec.CbcCheck', 'Toy.ToyMac', 'Model.C01_RecordPipe', 'Toy.C01_ToyCi
 ERR = {'TLSBadRecordMAC': 1, 'TLSDecryptionFailed': 2, 'TLSRecordOverflow': 3, 'TLSUnexpectedMessage': 4,
        'TLSIllegalParameterException': 5, 'ValueError': 6, 'AssertionError': 7}
 ERRNAME = {v: k for k, v in ERR.items()}
-MODES = ('null', 'stream', 'cbc', 'etm', 'aead-aes', 'aead-chacha', 'aead-chacha-draft', 'tls13')
+MODES = ('plain', 'null', 'stream', 'cbc', 'etm', 'aead-aes', 'aead-chacha', 'aead-chacha-draft', 'tls13')
 
 
 # ------------------------------------------------------------------------------------------
@@ -72,7 +72,7 @@ def default_cfg(mode, ver, **kw):
 def flags(c):
     m = c['mode']
     return dict(
-        has_enc=m != 'null', has_mac=m in ('null', 'stream', 'cbc', 'etm'), block=m in ('cbc', 'etm'),
+        has_enc=m not in ('null', 'plain'), has_mac=m in ('null', 'stream', 'cbc', 'etm'), block=m in ('cbc', 'etm'),
         aead=m.startswith('aead') or m == 'tls13', etm=m == 'etm',
         aes=m == 'aead-aes' or (m == 'tls13' and c.get('t13name', 'aes128gcm').startswith('aes')),
         chacha=m in ('aead-chacha', 'aead-chacha-draft') or (m == 'tls13' and c.get('t13name') == 'chacha20-poly1305'),
@@ -217,7 +217,7 @@ def cfg_lit(c):
 
 def prim_lit(c):
     m = c['mode']
-    if m in ('null', 'stream'):
+    if m in ('null', 'stream', 'plain'):
         return '(toy_prim_stream %s %d %d)' % (blit(c['mac_key']), c['mds'], c['mbs'])
     if m in ('cbc', 'etm'):
         return '(toy_prim_cbc %d %s %s %d %d)' % (c['bs'], blit(c['enc_key']), blit(c['mac_key']), c['mds'], c['mbs'])
